@@ -57,6 +57,12 @@ Proof.
   rewrite orb_true_iff, N.eqb_eq, IH. split; intros [E|E]; auto.
 Qed.
 
+Lemma memN_app x a b : memN x (a ++ b) = memN x a || memN x b.
+Proof.
+  induction a as [|y a IH]; cbn [app memN]; [reflexivity|].
+  rewrite IH. rewrite orb_assoc. reflexivity.
+Qed.
+
 (* indices of the [false] entries of a list of checks: used by cases files *)
 Fixpoint failing_from (i : N) (l : list bool) : list N :=
   match l with
